@@ -37,6 +37,8 @@ from ioflo.trim.interior.plain import controlling
 PROPERTY = "C46"
 ENGINE = "E2"
 TECHNIQUE = "source->SMT translation over FP(11,53), arithmetic and callees as uninterpreted functions"
+LEVEL_TEXT = "source->SMT over FP(11,53), one inductive step of ControllerPid.action from an arbitrary controller state; float *, /, + and wrap2 / blend0 are uninterpreted functions (sound over-approximation); three queries (limits, error, reset) unsat"
+LEVEL_NOTE = "trusted: astsmt translator incl. attribute-chain variables and CPython min/max/abs/comparison semantics on NaN; abstract counterexamples count only if they reproduce on the real class; z3 5.1 (qffp tactic with default-solver fallback)"
 FUNCTIONS = ["ioflo.trim.interior.plain.controlling.ControllerPid.action", "ioflo.base.doing.DoerLapse.action",
              "ioflo.base.doing.DoerLapse.updateLapse"]
 ASSUMPTIONS = [
